@@ -112,9 +112,13 @@ func (H) Generate(r *simrt.Rand, tier string) any {
 	if withOnly {
 		only = r.Intn(len(s.Subs))
 	}
+	maxCalls := 3
+	if tier == "thorough" && r.Intn(3) == 0 {
+		maxCalls = 6
+	}
 	for p := 0; p < 1+r.Intn(3); p++ {
 		var calls []PubCall
-		for c := 0; c < 1+r.Intn(3); c++ {
+		for c := 0; c < 1+r.Intn(maxCalls); c++ {
 			pc := PubCall{Variant: variants[r.Intn(len(variants))], N: 1, Only: -1, Delay: r.Intn(4)}
 			if strings.Contains(pc.Variant, "Slice") {
 				pc.N = r.Intn(4)
